@@ -125,9 +125,12 @@ def has_symmetric_extension(
     # (2-copy, non-PPT) symmetric extension that is much faster to use than semidefinite
     # programming [CJKLZB14]_.
     if level == 2 and not ppt and dim_x == 2 and dim_y == 2:
-        return np.trace(np.linalg.matrix_power(partial_trace(rho, [0]), 2)) >= np.trace(
-            np.linalg.matrix_power(rho, 2)
-        ) - 4 * np.sqrt(np.linalg.det(rho))
+        # The determinant of a rank-deficient state can come out slightly negative, which would make the root NaN.
+        det_rho = max(np.real(np.linalg.det(rho)), 0)
+        return bool(
+            np.real(np.trace(np.linalg.matrix_power(partial_trace(rho, [0]), 2)))
+            >= np.real(np.trace(np.linalg.matrix_power(rho, 2))) - 4 * np.sqrt(det_rho) - tol
+        )
 
     # Otherwise, use semidefinite programming to find a symmetric extension.
     # If the optimal value of the symmetric extension hierarchy is equal to 1,
